@@ -484,6 +484,12 @@ def handle (st : St) (ws : List String) : St × String × String :=
     match c.toNat?, unhex hex with
     | some c, some bs => handleRawClose st c bs
     | _, _ => (st, "bad-op", "bad-op")
+  | ["rawclose", c, hex, "eof"] =>
+    -- the same bytes handed to the broker's read together with the end of the stream (n > 0, io.EOF):
+    -- every packet still takes effect before the end does
+    match c.toNat?, unhex hex with
+    | some c, some bs => handleRawClose st c bs
+    | _, _ => (st, "bad-op", "bad-op")
   | ["race", a, xa, p, hp] =>
     match a.toNat?, (if xa == "close" then some none else (unhex xa).map some), p.toNat?, unhex hp with
     | some a, some xa, some p, some bp => handleRace st a xa p bp
